@@ -12,3 +12,11 @@ mod vmarket;
 mod c13_borrowing;
 #[cfg(kani)]
 mod c07_open_interest;
+#[cfg(kani)]
+mod whole;
+#[cfg(kani)]
+mod c09_liquidation;
+#[cfg(kani)]
+mod c10_round_trip;
+#[cfg(kani)]
+mod c08_ledger;
